@@ -30,7 +30,7 @@ options:
   PY_struct_arg: class
   PY_write_helper_in_util: true
 declarations:
-- decl: struct Arr { int count; int vals[3]; double w[2]; };
+- decl: struct Arr { int count; int vals[3]; double w[2]; char name[8]; int after; };
 - decl: int isum(const int *arr +rank(1), int n +implied(size(arr)))
 - decl: double dsum(const double *arr +rank(1), int n +implied(size(arr)))
 - decl: void iscale(int *arr +rank(1)+intent(inout), int n +implied(size(arr)), int k)
@@ -40,7 +40,7 @@ declarations:
 """
 
 HEADER = """\
-struct Arr { int count; int vals[3]; double w[2]; };
+struct Arr { int count; int vals[3]; double w[2]; char name[8]; int after; };
 typedef struct Arr Arr;
 int isum(const int *arr, int n);
 double dsum(const double *arr, int n);
@@ -137,6 +137,15 @@ PyObject *hd_roundtrip_int(PyObject *obj)
     return lst;
 }
 
+/* fill_from_PyObject_char on a member of `insize` cells placed at offset 16 of a 64 byte block of 0x7f guard bytes */
+PyObject *hd_fill_char(PyObject *obj, long insize)
+{
+    char block[64];
+    memset(block, 0x7f, sizeof(block));
+    if (%(prefix)sfill_from_PyObject_char(obj, "arg", block + 16, insize) == -1) return NULL;
+    return Py_BuildValue("y#l", block, (Py_ssize_t) sizeof(block), hd_outstanding());
+}
+
 PyObject *hd_charptr(PyObject *obj)
 {
     CONV v = {NULL, NULL, NULL, NULL, 0};
@@ -165,7 +174,7 @@ cases = json.load(open(sys.argv[2]))
 for n in ("hd_get_int", "hd_get_double", "hd_roundtrip_int", "hd_charptr"):
     getattr(lib, n).restype = ctypes.py_object
     getattr(lib, n).argtypes = [ctypes.py_object]
-for n in ("hd_fill_int", "hd_fill_double"):
+for n in ("hd_fill_int", "hd_fill_double", "hd_fill_char"):
     getattr(lib, n).restype = ctypes.py_object
     getattr(lib, n).argtypes = [ctypes.py_object, ctypes.c_long]
 lib.hd_outstanding.restype = ctypes.c_long
@@ -186,6 +195,8 @@ for c in cases:
             r = getattr(lib, c["op"])(obj, c["insize"])
         else:
             r = getattr(lib, c["op"])(obj)
+        if c["op"] == "hd_fill_char":
+            r = [list(r[0]), r[1]]
         res = {"r": "ok", "value": r}
     except BaseException as e:
         res = {"r": "exc", "type": type(e).__name__, "msg": str(e)}
@@ -271,6 +282,16 @@ def run(ctx, drv, accepts, thorough, dis):
                         reqs.append("fill %s %d %s" % (".".join(map(str, accepts[key])), insize, ms))
                 cases.append({"op": "hd_charptr", "obj": obj, "items": items, "conv": "s"})
                 reqs.append("charptr " + ms)
+            # fixed-size char member: strings shorter than, equal to and longer than the capacity
+            for cap in ((1, 2, 4, 8, 16) if thorough else (1, 4, 8)):
+                for n in sorted(set(list(range(0, cap + 6)) + [cap * 2 + 3])):
+                    for kind in ("str", "bytes"):
+                        text = "".join(chr(97 + i % 26) for i in range(n))
+                        cases.append({"op": "hd_fill_char", "obj": (kind, text), "items": [], "conv": "c", "insize": cap})
+                        reqs.append("fillchar %d %s:%d" % (cap, kind[0], n))
+                for obj, code in ((("none", None), "n"), (("int", 5), "o"), (("list", []), "o"), (("float", 1.5), "o")):
+                    cases.append({"op": "hd_fill_char", "obj": obj, "items": [], "conv": "c", "insize": cap})
+                    reqs.append("fillchar %d %s" % (cap, code))
             cf, rf = os.path.join(d, "cases.json"), os.path.join(d, "res.json")
             json.dump([{k: c[k] for k in ("op", "obj", "insize") if k in c} for c in cases], open(cf, "w"))
             open(os.path.join(d, "drive.py"), "w").write(DRIVER)
@@ -285,6 +306,20 @@ def run(ctx, drv, accepts, thorough, dis):
             for c, res, m in zip(cases, results, model):
                 ctx.count(1)
                 total += 1
+                if c["op"] == "hd_fill_char" and res["r"] == "ok":
+                    # implementation-only: nothing outside the member is written; the member holds the text
+                    # NUL-terminated, or its first `insize` characters when it does not fit
+                    block, cap_ = res["value"][0], c["insize"]
+                    text = c["obj"][1] if c["obj"][0] in ("str", "bytes") else ""
+                    outside = [i for i in range(64) if not 16 <= i < 16 + cap_ and block[i] != 0x7f]
+                    member = block[16:16 + cap_]
+                    want = [ord(ch) for ch in text[:cap_]]
+                    if outside:
+                        ctx.fail("helper-overflow:fill_from_PyObject_char", "fill_from_PyObject_char(%r, insize=%d) wrote outside the "
+                                 "member at offsets %s" % (c["obj"], cap_, [i - 16 for i in outside][:8]), {"language": lang, "case": c})
+                    elif member[:len(want)] != want or (len(text) < cap_ and member[len(want)] != 0):
+                        ctx.fail("helper-content:fill_from_PyObject_char", "fill_from_PyObject_char(%r, insize=%d) stored %r" % (
+                            c["obj"], cap_, member), {"language": lang, "case": c})
                 why = judge(c, res, m)
                 # implementation-only oracle: errors are TypeError/ValueError, nothing leaks, references balanced
                 if res["r"] == "exc" and res["type"] not in ("TypeError", "ValueError"):
@@ -318,6 +353,20 @@ def cval(item, conv):
 def judge(c, res, m):
     """compare the compiled helper with the model line"""
     parts = m.split(" ")
+    if c["op"] == "hd_fill_char":
+        if parts[0] == "err":
+            return None if (res["r"] == "exc" and res["type"] == "TypeError") else "model: TypeError"
+        if res["r"] != "ok":
+            return "model: ok"
+        block, cap = res["value"][0], c["insize"]
+        cells = [] if parts[1] == "~" else parts[1].split(",")
+        text = c["obj"][1] if c["obj"][0] in ("str", "bytes") else ""
+        want = [0x7f] * 64
+        for i, cell in enumerate(cells):
+            want[16 + i] = ord(text[int(cell[1:])]) if cell[0] == "c" else (0 if cell == "z" else 0x7f)
+        if len(cells) != cap:
+            return "model writes %d cells for a member of %d" % (len(cells), cap)
+        return None if block == want else "block %r, model %r" % (block[12:16 + cap + 4], want[12:16 + cap + 4])
     if parts[0] == "err":
         if res["r"] != "exc" or res["type"] != "TypeError":
             return "model: TypeError"
@@ -361,3 +410,94 @@ def judge(c, res, m):
     if before != int(parts[2]) + int(parts[3]) or after != 0:
         return "allocations before/after release %d/%d, model %s/0" % (before, after, int(parts[2]) + int(parts[3]))
     return None
+
+
+# ====================================================================== fixed-size char members, end to end
+REC_YAML = """\
+library: rec
+cxx_header: %(hdr)s
+language: %(lang)s
+options:
+  wrap_python: true
+  wrap_c: false
+  wrap_fortran: false
+  wrap_lua: false
+  PY_struct_arg: class
+  PY_array_arg: list
+declarations:
+- decl: struct Rec { int before; char name[8]; int after; char tag[3]; double w; };
+"""
+REC_HEADER = "struct Rec { int before; char name[8]; int after; char tag[3]; double w; };\ntypedef struct Rec Rec;\n"
+REC_DRIVER = r'''
+import json, sys
+sys.path.insert(0, sys.argv[1])
+import rec
+out = []
+for c in json.load(open(sys.argv[2])):
+    try:
+        if c["how"] == "ctor":
+            r = rec.Rec(before=11, name=c["name"], after=22, tag=c["tag"], w=2.5)
+        else:
+            r = rec.Rec(11, "", 22, "", 2.5)
+            r.name = c["name"]
+            r.tag = c["tag"]
+        out.append({"r": "ok", "before": r.before, "name": r.name, "after": r.after, "tag": r.tag, "w": r.w})
+    except BaseException as e:
+        out.append({"r": "exc", "type": type(e).__name__, "msg": str(e)[:200]})
+json.dump(out, open(sys.argv[3], "w"))
+'''
+
+
+def member_oracle(ctx, thorough):
+    """struct wrapped as a class with fixed-size char members between other members: constructor and setter with texts
+    shorter than, equal to and longer than the member; the member reads back as the text cut to its size and the
+    neighbouring members keep their values (implementation only)."""
+    inc = sysconfig.get_paths()["include"]
+    total = 0
+    for lang in ("c++", "c"):
+        d = common.scratch()
+        try:
+            cxx = lang != "c"
+            hdr = "rec.hpp" if cxx else "rec.h"
+            ytext = REC_YAML % {"hdr": hdr, "lang": lang}
+            y = shroudrun.write_yaml(d, "rec.yaml", ytext)
+            open(os.path.join(d, hdr), "w").write(REC_HEADER)
+            out = os.path.join(d, "out")
+            os.makedirs(out)
+            cfg, exc, _ = shroudrun.run_inproc([y], out, path=[d])
+            if exc is not None:
+                ctx.fail("generate:rec-" + lang, "Shroud fails on a struct with char array members: %r" % (exc,), {"yaml": ytext})
+                continue
+            srcs = [os.path.join(out, f) for f in sorted(os.listdir(out)) if f.endswith((".c", ".cpp"))]
+            cmd = (["g++", "-std=c++11"] if cxx else ["gcc", "-std=c99"]) + ["-shared", "-fPIC", "-O0", "-w", "-I" + inc, "-I" + d,
+                                                                             "-I" + out] + srcs + ["-o", os.path.join(d, "rec.so")]
+            p = subprocess.run(cmd, stdout=subprocess.PIPE, stderr=subprocess.STDOUT, text=True)
+            if p.returncode:
+                ctx.fail("compile:rec-" + lang, "struct with char array members does not compile: " + p.stdout[-600:], {"yaml": ytext})
+                continue
+            cases = []
+            for how in ("ctor", "setter"):
+                for n in list(range(0, 14)) + ([20, 40] if thorough else [20]):
+                    text = "".join(chr(97 + i % 26) for i in range(n))
+                    cases.append({"how": how, "name": text, "tag": text[:max(0, n - 5)]})
+            cf, rf = os.path.join(d, "cases.json"), os.path.join(d, "res.json")
+            json.dump(cases, open(cf, "w"))
+            open(os.path.join(d, "drive.py"), "w").write(REC_DRIVER)
+            p = subprocess.run([sys.executable, os.path.join(d, "drive.py"), d, cf, rf], stdout=subprocess.PIPE, stderr=subprocess.PIPE,
+                               text=True, timeout=300)
+            if p.returncode != 0 or not os.path.exists(rf):
+                ctx.fail("crash:rec-" + lang, "char member assignments crashed (rc=%s): %s" % (p.returncode, p.stderr[-300:]),
+                         {"yaml": ytext, "header": REC_HEADER})
+                continue
+            for c, res in zip(cases, json.load(open(rf))):
+                ctx.count(1)
+                total += 1
+                want = {"r": "ok", "before": 11, "name": c["name"][:8], "after": 22, "tag": c["tag"][:3], "w": 2.5}
+                if res != want:
+                    ctx.fail("char-member:%s:%s" % (lang, c["how"]), "Rec %s name=%r tag=%r: expected %s, got %s" % (
+                        c["how"], c["name"], c["tag"], json.dumps(want), json.dumps(res)), {"yaml": ytext, "header": REC_HEADER, "case": c})
+                if len(c["name"]) >= 8:
+                    ctx.nontrivial("charmember:%s:%s:%d" % (lang, c["how"], len(c["name"])))
+        finally:
+            common.rmtree(d)
+    return total
